@@ -26,8 +26,8 @@ type metricSpec struct {
 	nsa           bool
 	fki           []int
 	budget        uint32
-	viaStorage    bool
-	missing       bool // no meta anywhere: missingMetricMeta
+	viaStorage    bool // the meta storage knows this metric
+	missing       bool // expected resolution is missingMetricMeta (no row carries the metric's own meta and the storage cannot resolve it)
 }
 
 type rowSpec struct {
@@ -36,6 +36,7 @@ type rowSpec struct {
 	size   int
 	whale  int
 	single bool
+	imeta  int // what Item.MetricMeta is: 0 the meta of the accounted metric, 1 nil, 2 the meta of ANOTHER metric (re-accounted row)
 	tags   [4]int32
 	item   *data_model.MultiItem
 }
@@ -99,7 +100,7 @@ type result struct {
 }
 
 func fairKey(c cfgSpec, r *rowSpec) string {
-	if !c.keys || len(r.m.fki) == 0 || r.m.missing || (r.m.viaStorage && c.noMeta) {
+	if !c.keys || len(r.m.fki) == 0 || r.m.missing {
 		return ""
 	}
 	n := len(r.m.fki)
@@ -145,6 +146,8 @@ func runReal(b *bucketSpec, seed uint64) (res result) {
 			mock.nss[m.ns] = &format.NamespaceMeta{ID: m.ns, EffectiveWeight: m.nsw}
 		}
 	}
+	foreign := foreignMeta(b)
+	mock.nss[foreign.NamespaceID] = &format.NamespaceMeta{ID: foreign.NamespaceID, EffectiveWeight: 4}
 	var r *rand.Rand
 	if c.rng {
 		r = rand.New(seed)
@@ -255,8 +258,11 @@ func runReal(b *bucketSpec, seed uint64) (res result) {
 		if !rw.single {
 			it.Top = map[data_model.TagUnion]*data_model.MultiValue{{I: 1}: {}, {I: 2}: {}}
 		}
-		if !rw.m.viaStorage && !rw.m.missing {
+		switch rw.imeta {
+		case 0:
 			it.MetricMeta = metas[rw.m.id]
+		case 2:
+			it.MetricMeta = foreign
 		}
 		rw.item = it
 		byItem[it] = rw
@@ -286,27 +292,85 @@ func listInt(xs []int) string {
 	return "[" + strings.Join(p, ";") + "]"
 }
 
-func metTerm(c cfgSpec, m *metricSpec) string {
-	ns, group, nsw, gw, mw, nsa, fki := m.ns, m.group, m.nsw, m.gw, m.mw, m.nsa, m.fki
-	if m.missing || (m.viaStorage && c.noMeta) { // missingMetricMeta
-		ns, group, mw, nsa, fki = format.BuiltinNamespaceIDMissing, format.BuiltinGroupIDMissing, 1, false, nil
-		nsw, gw = 0, 0
-	}
-	if c.noMeta || ns == 0 {
-		nsw = 0
-	}
-	if c.noMeta || group == 0 {
-		gw = 0
-	}
-	return fmt.Sprintf("(M %s %d %s %s %d %d %d %s %s)", vu.Z(int64(m.id)), m.budget, vu.Z(int64(ns)), vu.Z(int64(group)), nsw, gw, mw, vu.B(nsa), listInt(fki))
+// foreignMeta: the meta of another metric, attached to re-accounted rows (as the built-in ingestion status meta is)
+func foreignMeta(b *bucketSpec) *format.MetricMetaValue {
+	w := int64(1 + len(b.rows)%5)
+	return &format.MetricMetaValue{MetricID: 777777, NamespaceID: 9, GroupID: 99, EffectiveWeight: w, NoSampleAgent: len(b.rows)%3 == 0, FairKeyIndex: []int{0}}
 }
 
-func rowTerm(c cfgSpec, r *rowSpec, mi int) string {
+func metTerm(c cfgSpec, m *metricSpec) string {
+	nsw, gw := m.nsw, m.gw
+	if c.noMeta || m.ns == 0 {
+		nsw = 0
+	}
+	if c.noMeta || m.group == 0 {
+		gw = 0
+	}
+	return fmt.Sprintf("(M %s %s %s %d %d %d %s %s)", vu.Z(int64(m.id)), vu.Z(int64(m.ns)), vu.Z(int64(m.group)), nsw, gw, m.mw, vu.B(m.nsa), listInt(m.fki))
+}
+
+func listNat(xs []int) string {
+	p := make([]string, len(xs))
+	for i, x := range xs {
+		p[i] = fmt.Sprintf("%d%%nat", x)
+	}
+	return "[" + strings.Join(p, ";") + "]"
+}
+
+func rowTerm(c cfgSpec, r *rowSpec, mi, foreignIdx int) string {
 	tags := "[]"
-	if c.keys && len(r.m.fki) > 0 && !r.m.missing && !(r.m.viaStorage && c.noMeta) {
+	if c.keys {
 		tags = listInt([]int{int(r.tags[0]), int(r.tags[1]), int(r.tags[2]), int(r.tags[3])})
 	}
-	return fmt.Sprintf("(R %d %s %d %s %d %s)", r.id, vu.Z(int64(r.size)), r.whale, vu.B(r.single), mi, tags)
+	im := "None"
+	switch r.imeta {
+	case 0:
+		im = fmt.Sprintf("(Some %d%%nat)", mi)
+	case 2:
+		im = fmt.Sprintf("(Some %d%%nat)", foreignIdx)
+	}
+	return fmt.Sprintf("(R %d %s %d %s %s %d %s %s)", r.id, vu.Z(int64(r.size)), r.whale, vu.B(r.single), vu.Z(int64(r.m.id)), r.m.budget, im, tags)
+}
+
+// finalizeMetas decides what each Item carries as MetricMeta and whether the storage knows the metric, such that all rows
+// of one accounted metric resolve to the same meta under the rule "Item.MetricMeta only if its MetricID is the accounted one,
+// else the storage, else missingMetricMeta".
+func finalizeMetas(r *vu.Rng, b *bucketSpec) {
+	c := b.cfg
+	for _, m := range b.metrics {
+		mode := r.Intn(100)
+		allOwn, allOther := false, false
+		switch {
+		case mode < 50:
+			allOwn, m.viaStorage = true, r.Chance(30)
+		case mode < 80: // known to the storage; rows carry their own meta, none, or the meta of another metric
+			m.viaStorage = true
+			if c.noMeta {
+				allOwn = r.Bool()
+				allOther = !allOwn
+			}
+		case mode < 88: // unknown everywhere
+			m.viaStorage, allOther = false, true
+		default: // only re-accounted / meta-less rows this second
+			m.viaStorage, allOther = true, true
+		}
+		own := false
+		for _, rw := range b.rows {
+			if rw.m != m {
+				continue
+			}
+			switch {
+			case allOwn:
+				rw.imeta = 0
+			case allOther:
+				rw.imeta = 1 + r.Intn(2)
+			default:
+				rw.imeta = r.Intn(3)
+			}
+			own = own || rw.imeta == 0
+		}
+		m.missing = !own && (!m.viaStorage || c.noMeta)
+	}
 }
 
 func b01(b bool) byte {
@@ -384,11 +448,6 @@ func genBucket(r *vu.Rng, directed int) *bucketSpec {
 				m.fki = append(m.fki, 1, 2)
 			}
 		}
-		m.viaStorage = r.Chance(15)
-		m.missing = r.Chance(3)
-		if m.missing {
-			m.viaStorage = false
-		}
 		if hasFixed && r.Chance(40) {
 			m.budget = uint32(1 + r.Intn(400))
 		}
@@ -418,8 +477,12 @@ func genBucket(r *vu.Rng, directed int) *bucketSpec {
 			if distinctWhales {
 				rw.whale = k*7 + r.Intn(7)
 			}
+			tagRange := 3
+			if r.Chance(30) {
+				tagRange = 5
+			}
 			for t := 0; t < 4; t++ {
-				rw.tags[t] = int32(r.Intn(3))
+				rw.tags[t] = int32(r.Intn(tagRange))
 			}
 			b.rows = append(b.rows, rw)
 		}
@@ -468,6 +531,7 @@ func genBucket(r *vu.Rng, directed int) *bucketSpec {
 		b.budget = int64(r.Intn(int(2*total + 2)))
 	}
 	_ = directed
+	finalizeMetas(r, b)
 	return b
 }
 
@@ -537,7 +601,6 @@ func genDirected(r *vu.Rng) *bucketSpec {
 	addMetric := func(ns, group int32, nsw, gw, mw int64, size int64) {
 		mid++
 		m := &metricSpec{id: mid, ns: ns, group: group, nsw: nsw, gw: gw, mw: mw}
-		m.viaStorage = r.Chance(10)
 		b.metrics = append(b.metrics, m)
 		n := int64(1 + r.Intn(6))
 		if n > size {
@@ -609,6 +672,70 @@ func genDirected(r *vu.Rng) *bucketSpec {
 	if b.budget < 0 {
 		b.budget = 0
 	}
+	finalizeMetas(r, b)
+	return b
+}
+
+// genFairKeys: a metric with a fair key of length >= 2 that is over budget: one small first-level key within its share and
+// several big ones, each with 2-5 distinct second-level values (so that nested partitionByKey calls happen for partitions
+// at every sorted position), optionally a third level and a neighbour metric.
+func genFairKeys(r *vu.Rng) *bucketSpec {
+	b := &bucketSpec{}
+	c := &b.cfg
+	c.agent, c.keepSingle, c.disableNSA = r.Bool(), r.Chance(15), r.Bool()
+	c.keys, c.nss, c.groups, c.budgets = true, r.Chance(30), r.Chance(30), r.Chance(15)
+	c.quota, c.rng = r.Chance(8), r.Chance(35)
+	m := &metricSpec{id: 1, ns: 1, group: 11, nsw: 2, gw: 1, mw: 1}
+	m.fki = [][]int{{0, 1}, {1, 0}, {0, 1, 2}, {2, 0}}[r.Intn(4)]
+	b.metrics = append(b.metrics, m)
+	rowID := 0
+	size := 5 + r.Intn(60)
+	nFirst := 2 + r.Intn(4)
+	for v0 := 0; v0 < nFirst; v0++ {
+		nSecond := 2 + r.Intn(4)
+		per := 1 + r.Intn(3)
+		if v0 == 0 && r.Chance(70) { // the small key
+			nSecond, per = 1, 1+r.Intn(2)
+		}
+		for v1 := 0; v1 < nSecond; v1++ {
+			for k := 0; k < per; k++ {
+				rw := &rowSpec{id: rowID, m: m, size: size, whale: r.Intn(50), single: r.Bool()}
+				if r.Chance(25) {
+					rw.size = 1 + r.Intn(2*size)
+				}
+				rowID++
+				rw.tags[m.fki[0]] = int32(v0)
+				rw.tags[m.fki[1]] = int32(v1)
+				for t := 0; t < 4; t++ {
+					if t != m.fki[0] && t != m.fki[1] {
+						rw.tags[t] = int32(r.Intn(3))
+					}
+				}
+				b.rows = append(b.rows, rw)
+			}
+		}
+	}
+	if r.Chance(40) {
+		m2 := &metricSpec{id: 2, ns: 1, group: 11, nsw: 2, gw: 1, mw: int64(1 + r.Intn(3))}
+		b.metrics = append(b.metrics, m2)
+		for k := 0; k < 1+r.Intn(5); k++ {
+			b.rows = append(b.rows, &rowSpec{id: rowID, m: m2, size: size, whale: r.Intn(9), single: r.Bool()})
+			rowID++
+		}
+	}
+	total := int64(0)
+	for _, rw := range b.rows {
+		total += int64(rw.size)
+	}
+	b.budget = total * int64(1+r.Intn(9)) / 10
+	if r.Chance(10) {
+		b.budget = total
+	}
+	for i := len(b.rows) - 1; i > 0; i-- {
+		j := r.Intn(i + 1)
+		b.rows[i], b.rows[j] = b.rows[j], b.rows[i]
+	}
+	finalizeMetas(r, b)
 	return b
 }
 
@@ -654,7 +781,7 @@ func topKey(b *bucketSpec, rw *rowSpec) (string, int64) {
 	c := b.cfg
 	m := rw.m
 	ns, group, mw, nsw, gw := m.ns, m.group, m.mw, m.nsw, m.gw
-	if m.missing || (m.viaStorage && c.noMeta) {
+	if m.missing {
 		ns, group, mw = format.BuiltinNamespaceIDMissing, format.BuiltinGroupIDMissing, 1
 	}
 	if c.noMeta || ns == 0 || nsw < 1 {
@@ -685,7 +812,7 @@ var c05Oracles = map[string]bool{"no_panic": true, "each_row_once": true, "small
 	"kept_without_selection_has_factor_1": true}
 
 func (f failer) Fail(name string, line int, input string) {
-	if c05Oracles[name] == (prop == "C05") {
+	if name == "no_panic" || name == "each_row_once" || c05Oracles[name] == (prop == "C05") {
 		f.o.Fail(name, line, input)
 	}
 }
@@ -742,8 +869,16 @@ func evalCase(o0 *vu.Out, b *bucketSpec, seed uint64) (skipped bool) {
 		midx[m] = i
 		mets = append(mets, metTerm(c, m))
 	}
+	fm := foreignMeta(b)
+	mets = append(mets, fmt.Sprintf("(M %d %d %d %d 0 %d %s %s)", fm.MetricID, fm.NamespaceID, fm.GroupID, map[bool]int{true: 0, false: 4}[c.noMeta], fm.EffectiveWeight, vu.B(fm.NoSampleAgent), listInt(fm.FairKeyIndex)))
+	var storage []int
+	for i, m := range b.metrics {
+		if m.viaStorage {
+			storage = append(storage, i)
+		}
+	}
 	for _, rw := range b.rows {
-		rows = append(rows, rowTerm(c, rw, midx[rw.m]))
+		rows = append(rows, rowTerm(c, rw, midx[rw.m], len(b.metrics)))
 	}
 	sort.Slice(sorted, func(i, j int) bool { return sorted[i].id < sorted[j].id })
 	for _, rw := range sorted {
@@ -773,9 +908,9 @@ func evalCase(o0 *vu.Out, b *bucketSpec, seed uint64) (skipped bool) {
 		}
 		mode = fmt.Sprintf("(MRng [%s] [%s])", strings.Join(rd, ";"), strings.Join(sd, ";"))
 	}
-	term := fmt.Sprintf("CRun (mkcfg %s %s %s %s %s %s %s %s false) %s [%s] [%s] %s [%s] [%s]",
+	term := fmt.Sprintf("CRun (mkcfg %s %s %s %s %s %s %s %s false) %s %s [%s] %s [%s] %s [%s] [%s]",
 		vu.B(c.agent), vu.B(c.keepSingle), vu.B(c.disableNSA), vu.B(c.budgets), vu.B(c.nss), vu.B(c.groups), vu.B(c.keys), vu.B(c.quota),
-		vu.Z(b.budget), strings.Join(mets, ";"), strings.Join(rows, ";"), mode, strings.Join(perms, ";"), strings.Join(ob, ";"))
+		vu.Z(b.budget), vu.B(!c.noMeta), strings.Join(mets, ";"), listNat(storage), strings.Join(rows, ";"), mode, strings.Join(perms, ";"), strings.Join(ob, ";"))
 	nSampled, nWhale, nSmall := 0, 0, 0
 	for _, rw := range b.rows {
 		if ro := obs[rw.id]; ro != nil && ro.sf != 1 && rw.size > 0 {
@@ -863,7 +998,7 @@ func evalCase(o0 *vu.Out, b *bucketSpec, seed uint64) (skipped bool) {
 				}
 			}
 		}
-		nsa := rw.m.nsa && !rw.m.missing && !(rw.m.viaStorage && c.noMeta)
+		nsa := rw.m.nsa && !rw.m.missing
 		if nsa && c.agent && !c.disableNSA {
 			nsaActive = true
 			if !c.quota && (!ro.kept || ro.sf != 1) {
@@ -948,7 +1083,7 @@ func evalCase(o0 *vu.Out, b *bucketSpec, seed uint64) (skipped bool) {
 		}
 	}
 	for _, m := range b.metrics {
-		if m.missing || (m.viaStorage && c.noMeta) {
+		if m.missing {
 			ambiguous = true
 		}
 	}
@@ -1079,6 +1214,8 @@ func main() {
 		b := genBucket(r, i)
 		if i%4 == 3 {
 			b = genDirected(r)
+		} else if i%8 == 5 {
+			b = genFairKeys(r)
 		}
 		evalCase(o, b, r.U64())
 	}
